@@ -125,6 +125,104 @@ theorem loop_split (n : Nat) : ∀ (s : St), s.rest.length = n → Inv s → pee
     · simp [contAfterPeek, hfo]
 
 
+theorem decodeMessagesCtx_fuel : ∀ (f k : Nat) (s : St), Inv s → fuelOf s ≤ f →
+    decodeMessagesCtx f k s = decodeMessagesCtx (fuelOf s) k s
+  | f, 0, s, _, _ => by
+    have hfo : fuelOf s = s.rest.length + 1 := rfl
+    rw [hfo]
+    unfold decodeMessagesCtx; rfl
+  | 0, k + 1, s, _, hf => by simp [fuelOf] at hf
+  | f + 1, k + 1, s, hi, hf => by
+    have hfo : fuelOf s = s.rest.length + 1 := rfl
+    rw [hfo]
+    unfold decodeMessagesCtx
+    split
+    · have hm := decodeMessage_sat s hi
+      cases hr : decodeMessage s with
+      | ok p =>
+        obtain ⟨s', ev⟩ := p
+        rw [hr] at hm
+        obtain ⟨m1, hlt⟩ := hm
+        simp only at m1 hlt ⊢
+        have h1 := decodeMessagesCtx_fuel f k s' m1.1 (by simp only [fuelOf] at hf ⊢; omega)
+        have h2 := decodeMessagesCtx_fuel s.rest.length k s' m1.1 (by simp only [fuelOf]; omega)
+        rw [h1, h2]
+      | err e => rfl
+      | panic => rfl
+      | hang => rfl
+    · rfl
+
+theorem peekCount_fuel : ∀ (f : Nat) (s : St), Inv s → fuelOf s ≤ f →
+    peekCount f s = peekCount (fuelOf s) s
+  | 0, s, _, hf => by simp [fuelOf] at hf
+  | f + 1, s, hi, hf => by
+    have hfo : fuelOf s = s.rest.length + 1 := rfl
+    rw [hfo]
+    unfold peekCount
+    split
+    · have hm := decodeMessage_sat s hi
+      cases hr : decodeMessage s with
+      | ok p =>
+        obtain ⟨s', ev⟩ := p
+        rw [hr] at hm
+        obtain ⟨m1, hlt⟩ := hm
+        simp only at m1 hlt ⊢
+        have h1 := peekCount_fuel f s' m1.1 (by simp only [fuelOf] at hf ⊢; omega)
+        have h2 := peekCount_fuel s.rest.length s' m1.1 (by simp only [fuelOf]; omega)
+        rw [h1, h2]
+      | err e => rfl
+      | panic => rfl
+      | hang => rfl
+    · rfl
+
+/-- the record loop of `DecodeWithContext` (context first seen cancelled after `k` more records) continued after a
+successful loop of `PeekFileId` -/
+def contAfterPeekCtx (k : Nat) (p : LoopOut) : LoopOut :=
+  let q := decodeMessagesCtx (fuelOf p.1) k p.1
+  (q.1, p.2.1 ++ q.2.1, q.2.2)
+
+/-- a cancellation seen after `k` more records following a successful peek of `j` records is a cancellation seen after
+`j + k` records of the sequence -/
+theorem loop_split_ctx (k : Nat) (n : Nat) : ∀ (s : St), s.rest.length = n → Inv s → peekPast (fuelOf s) s = false →
+    (peekLoop (fuelOf s) s).2.2 = .ok () →
+    decodeMessagesCtx (fuelOf s) (peekCount (fuelOf s) s + k) s = contAfterPeekCtx k (peekLoop (fuelOf s) s) := by
+  induction n using Nat.strongRecOn with
+  | _ n IH =>
+    intro s hn hi hp hok
+    have hfo : fuelOf s = s.rest.length + 1 := rfl
+    rw [hfo] at hp hok ⊢
+    unfold peekLoop at hok ⊢
+    unfold peekPast at hp
+    unfold peekCount
+    split
+    · rename_i hnone
+      simp only [hnone, if_true, Bool.or_eq_false_iff, decide_eq_false_iff_not] at hp hok
+      obtain ⟨hcur, hp'⟩ := hp
+      have hcur' : s.q.cur < s.q.hdr.dataSize := by omega
+      have hm := decodeMessage_sat s hi
+      cases hr : decodeMessage s with
+      | ok p =>
+        obtain ⟨s', ev⟩ := p
+        rw [hr] at hm hp' hok
+        obtain ⟨m1, hlt⟩ := hm
+        simp only at m1 hlt hp' hok ⊢
+        have hf' : fuelOf s' ≤ s.rest.length := by simp only [fuelOf]; omega
+        rw [peekLoop_fuel _ s' m1.1 hf'] at hok ⊢
+        rw [peekPast_fuel _ s' m1.1 hf'] at hp'
+        rw [peekCount_fuel _ s' m1.1 hf']
+        have ih := IH s'.rest.length (by omega) s' rfl m1.1 hp' hok
+        have hk : peekCount (fuelOf s') s' + 1 + k = (peekCount (fuelOf s') s' + k) + 1 := by omega
+        rw [hk]
+        unfold decodeMessagesCtx
+        simp only [hcur', if_true, hr]
+        rw [decodeMessagesCtx_fuel _ _ s' m1.1 hf', ih]
+        rcases hpk : peekLoop (fuelOf s') s' with ⟨s2, evs1, r⟩
+        simp [contAfterPeekCtx]
+      | err e => rw [hr] at hok; simp [loopFail] at hok
+      | panic => rw [hr] at hok; simp [loopFail] at hok
+      | hang => rw [hr] at hok; simp [loopFail] at hok
+    · simp [contAfterPeekCtx, hfo]
+
 /-- the same decoder with checksums off (what `Discard` works with) -/
 def noChk (s : St) : St := { s with o := { s.o with chk := false } }
 
@@ -429,20 +527,10 @@ theorem discardTail_spec (chk : Bool) (s1 : St) (hc : s1.q.cur ≤ s1.q.hdr.data
       exact ⟨rfl, rfl⟩
 
 
-/-- the tail of `Decode` after the record loop: CRC, `reset()`, release -/
-def decodeTail (l : LoopOut) : StepOut :=
-  match l with
-  | (s2, evs, .ok ()) =>
-    match decodeCRC s2 with
-    | .ok s3 => (release (resetSeq s3), .fit ⟨s3.q.hdr, s3.q.msgs.reverse, s3.q.crc⟩, evs)
-    | r => let (s', o) := fail s2 r; (release s', o, evs)
-  | (s2, evs, r) => let (s', o) := fail s2 r; (release s', o, evs)
-
 theorem decodeBody_eq (s s1 : St) (h : headerOnce s = .ok s1) :
     decodeBody s = decodeTail (decodeMessages (fuelOf s1) s1) := by
   unfold decodeBody decodeTail
   rw [h]
-  rfl
 
 /-- the tail only passes the listener calls through -/
 theorem decodeTail_events (s2 : St) (evs pre : List Event) (r : Res Unit) :
@@ -497,6 +585,42 @@ theorem decode_when_header_fails (s : St) (e : Err) (he : s.q.err = none) (hh : 
   rw [hh]
   rfl
 
+
+theorem stepDecodeCtxAt_after_header (k : Nat) (s s1 : St) (hi : Inv s) (he : s.q.err = none) (h : headerOnce s = .ok s1) :
+    stepDecodeCtxAt k s1 = stepDecodeCtxAt k s := by
+  have h1 := headerOnce_ok s s1 hi he h
+  unfold stepDecodeCtxAt
+  rw [h1.2.2.2.2.1, he]
+  simp only
+  unfold decodeBodyAt
+  rw [h, h1.2.2.2.2.2.2]
+
+/-- **`PeekFileId` is transparent for `DecodeWithContext`**, cancellation included: a context first seen cancelled `k`
+records after a successful peek of `j` records gives what a context first seen cancelled after `j + k` records gives
+without the peek -/
+theorem decodeAt_after_peek (k : Nat) (s s1 s2 : St) (evs1 : List Event) (hi : Inv s) (he : s.q.err = none)
+    (hh : headerOnce s = .ok s1) (hp : peekLoop (fuelOf s1) s1 = (s2, evs1, .ok ())) (hnp : peekPast (fuelOf s1) s1 = false) :
+    stepDecodeCtxAt (peekCount (fuelOf s1) s1 + k) s =
+      ((stepDecodeCtxAt k s2).1, (stepDecodeCtxAt k s2).2.1, evs1 ++ (stepDecodeCtxAt k s2).2.2) := by
+  have h1 := headerOnce_ok s s1 hi he hh
+  have hpl := peekLoop_sat (fuelOf s1) s1 h1.1 (by simp [fuelOf])
+  rw [hp] at hpl
+  obtain ⟨_, i2, r2, _⟩ := hpl
+  simp only at i2 r2
+  have e2 : s2.q.err = none := by rw [r2.err]; exact h1.2.2.2.2.1
+  have d2 : s2.q.hdrDone = true := by rw [r2.hdrDone]; exact h1.2.2.2.1
+  have hs := loop_split_ctx k s1.rest.length s1 rfl h1.1 hnp (by rw [hp])
+  rw [hp] at hs
+  unfold stepDecodeCtxAt
+  rw [he, e2]
+  simp only
+  unfold decodeBodyAt
+  rw [hh, headerOnce_done s2 d2 e2]
+  simp only
+  rw [hs]
+  simp only [contAfterPeekCtx]
+  rcases decodeMessagesCtx (fuelOf s2) k s2 with ⟨sf, evs2, r⟩
+  exact decodeTail_events sf evs2 evs1 r
 
 /-- byte strings shorter than 4 GiB (`Decoder.cur` is a uint32) -/
 def Small (l : List Nat) : Prop := IsBytes l ∧ l.length < 4294967296
@@ -588,6 +712,10 @@ theorem sim_peekFailed (a : Api) (p : Spec) (e : Err) (k : Nat) (op : Op) (hop :
       have : specStep p (.decodeCtx true) = ({ p with ph := .dead e }, some (.err e, [])) := by unfold specStep; simp [hph]
       rw [this]
       exact ⟨hdead, by intro x hx; cases hx; rw [hst.1]; rfl⟩
+  | decodeCtxAt j =>
+    have : specStep p (.decodeCtxAt j) = ({ p with ph := .dead e }, some (.err e, [])) := by unfold specStep; simp [hph]
+    rw [this]
+    exact ⟨hdead, by intro x hx; cases hx; rw [hst.1]; rfl⟩
   | peekHeader =>
     have : specStep p .peekHeader = (p, some (.err e, [])) := by unfold specStep; simp [hph]
     rw [this]
@@ -688,6 +816,67 @@ theorem sim_after_decode (a : Api) (p : Spec) (pre evs' : List Event) (s' : St) 
   | bool b => exact hk.elim
   | integrity n e => exact hk.elim
 
+
+theorem stepDecodeCtxAt_kind (k : Nat) (s : St) : (stepDecodeCtxAt k s).2.1.isDecodeKind := by
+  unfold stepDecodeCtxAt
+  split
+  · trivial
+  · unfold decodeBodyAt
+    cases hr : headerOnce s with
+    | ok s1 => exact decodeTail_kind _
+    | err e => trivial
+    | panic => trivial
+    | hang => trivial
+
+/-- after a `DecodeWithContext` (context first seen cancelled after `K` records of the sequence) whose state and result are
+the fresh decoder's (`pre` listener calls made before by a peek) -/
+theorem sim_after_decodeAt (a : Api) (p : Spec) (K : Nat) (pre evs' : List Event) (s' : St) (out : Out)
+    (hw : a.whole = p.whole) (hsw : Small p.whole ∧ FacOK p.o.fac) (hsc : Small p.cur)
+    (hfresh : stepDecodeCtxAt K p.st = (s', out, pre ++ evs'))
+    (hn : a.n ≠ 0 ∨ a.d.rest = p.cur) :
+    Sim (a.advance s') (specDecodeAt p pre.length K).1 ∧
+      Meets (a.advance s', out, evs') (specDecodeAt p pre.length K).2 := by
+  have hg := stepDecodeCtxAt_good K p.st (hsc.inv_fresh hsw.2)
+  have hk := stepDecodeCtxAt_kind K p.st
+  rw [hfresh] at hg hk
+  obtain ⟨hnp, hnh, hinv, herr⟩ := hg
+  simp only at hnp hnh hinv herr hk
+  unfold specDecodeAt
+  rw [hfresh]
+  simp only [List.drop_left']
+  refine ⟨?_, by intro x hx; cases hx; rfl⟩
+  cases out with
+  | fit f =>
+    simp only
+    have hf := stepDecode_fit p.st s' f _ (hsc.inv_fresh hsw.2) rfl (stepDecodeCtxAt_fit K p.st s' f _ hfresh)
+    refine ⟨hw, hsw, ⟨hf.2.2.1, by have := hf.2.1; rw [Spec.st_rest] at this; have := hsc.2; show s'.rest.length < _; omega⟩, ?_⟩
+    show (_ ∧ _)
+    refine ⟨hf.1, ?_⟩
+    show ((a.n + (a.d.rest.length - s'.rest.length)) == 0) = false
+    have hlt := hf.2.1
+    rw [Spec.st_rest] at hlt
+    rcases hn with hn | hn
+    · simp; omega
+    · rw [hn]; simp; omega
+  | err e => exact ⟨hw, hsw, hsc, herr e rfl⟩
+  | panic => exact absurd rfl hnp
+  | hang => exact absurd rfl hnh
+  | header h => exact hk.elim
+  | fileId f => exact hk.elim
+  | done => exact hk.elim
+  | bool b => exact hk.elim
+  | integrity n e => exact hk.elim
+
+/-- `DecodeWithContext` with a context cancelled during the call, in a phase where the decoder is alive -/
+theorem sim_decodeAt_alive (a : Api) (p : Spec) (pre : List Event) (k K : Nat)
+    (hw : a.whole = p.whole) (hsw : Small p.whole ∧ FacOK p.o.fac) (hsc : Small p.cur)
+    (hspec : specStep p (.decodeCtxAt k) = specDecodeAt p pre.length K)
+    (hfresh : stepDecodeCtxAt K p.st = ((stepDecodeCtxAt k a.d).1, (stepDecodeCtxAt k a.d).2.1, pre ++ (stepDecodeCtxAt k a.d).2.2))
+    (hn : a.n ≠ 0 ∨ a.d.rest = p.cur) :
+    Sim (step a (.decodeCtxAt k)).1 (specStep p (.decodeCtxAt k)).1 ∧
+      Meets (step a (.decodeCtxAt k)) (specStep p (.decodeCtxAt k)).2 := by
+  rw [hspec]
+  exact sim_after_decodeAt a p K pre _ _ _ hw hsw hsc hfresh hn
 
 theorem le32_lt (b : List Nat) (h : IsBytes b) : le32 b < 4294967296 := by
   unfold le32
@@ -1200,6 +1389,9 @@ theorem sim_start (a : Api) (p : Spec) (op : Op) (hph : p.ph = .start) (hs : Sim
     cases c with
     | false => exact hdec.2
     | true => exact sim_cancel a p hw hsw hsc (Or.inl hph) he
+  | decodeCtxAt k =>
+    exact sim_decodeAt_alive a p [] k k hw hsw hsc (by unfold specStep; simp [hph]) (by rw [had]; rfl)
+      (Or.inr (by rw [had]; rfl))
   | peekHeader => exact sim_start_peekHeader a p hw hsw hsc hph had
   | peekFileId =>
     refine sim_peekFileId_fresh a p hw hsw hsc (Or.inl hph) (by rw [had]) ?_ (Or.inr (by rw [had]; rfl))
@@ -1232,6 +1424,9 @@ theorem sim_header (a : Api) (p : Spec) (op : Op) (hph : p.ph = .header) (hs : S
     cases c with
     | false => exact hdec.2
     | true => exact sim_cancel a p hw hsw hsc (Or.inr (Or.inl hph)) he
+  | decodeCtxAt k =>
+    exact sim_decodeAt_alive a p [] k k hw hsw hsc (by unfold specStep; simp [hph])
+      (by rw [stepDecodeCtxAt_after_header k p.st a.d (hsc.inv_fresh hsw.2) rfl hh]; rfl) (Or.inl hn)
   | peekHeader =>
     have hspec : specStep p .peekHeader = (p, some ((stepPeekHeader p.st).2.1, [])) := by unfold specStep; simp [hph]
     rw [hspec]
@@ -1291,6 +1486,12 @@ theorem sim_fileId (a : Api) (p : Spec) (op : Op) (k : Nat) (lost : Bool) (hph :
     cases c with
     | false => exact hdec.2
     | true => exact sim_cancel a p hw hsw hsc (Or.inr (Or.inr ⟨k, lost, hph⟩)) he
+  | decodeCtxAt j =>
+    have hpeeked : p.peeked = peekCount (fuelOf s1) s1 := by unfold Spec.peeked; rw [hh]
+    refine sim_decodeAt_alive a p evs1 j (peekCount (fuelOf s1) s1 + j) hw hsw hsc ?_
+      (decodeAt_after_peek j p.st s1 a.d evs1 (hsc.inv_fresh hsw.2) rfl hh hpk hpp) (Or.inl hn)
+    unfold specStep
+    simp [hph, hk, hpeeked]
   | peekHeader =>
     have hspec : specStep p .peekHeader = (p, some ((stepPeekHeader p.st).2.1, [])) := by unfold specStep; simp [hph]
     rw [hspec]
